@@ -151,6 +151,8 @@ operator- (mpz_class v)
     case signedness::sign:
       if (v.m_i == INT64_MIN)
 	return mpz_class {(uint64_t) INT64_MAX + 1, signedness::unsign};
+      if (v.m_i >= 0)
+	return mpz_class {(uint64_t) -v.m_i, signedness::sign};
       return mpz_class {(uint64_t) -v.m_i, signedness::unsign};
 
     case signedness::unsign:
@@ -310,6 +312,19 @@ operator% (mpz_class v1, mpz_class v2)
   if (v2.m_u == 0)
     int_error (describe_div_0 (v1, v2, '%'));
 
-  mpz_class d = v1 / v2;
-  return v1 - v2 * d;
+  bool neg1 = v1 < 0;
+  bool neg2 = v2 < 0;
+  if (neg1)
+    v1 = -v1;
+  if (neg2)
+    v2 = -v2;
+
+  // The remainder has the sign of the divisor and is smaller in
+  // magnitude, so unlike V1 - V2 * (V1 / V2) this can't overflow.
+  uint64_t r = v1.m_u % v2.m_u;
+  if (r != 0 && neg1 != neg2)
+    r = v2.m_u - r;
+
+  mpz_class ret {r, signedness::unsign};
+  return neg2 ? -ret : ret;
 }
